@@ -481,7 +481,7 @@ func aggregate(spec *CheckSpec, tier string, seed int64, results []WorkResult, w
 	foreign := map[string]int{}
 	foreignEx := map[string]string{}
 	extra := map[string]int{}
-	var samples []json.RawMessage
+	samples := []json.RawMessage{}
 	evals := 0
 	var viols []WorkResult
 	knownHits := map[string]int{}
@@ -518,7 +518,7 @@ func aggregate(spec *CheckSpec, tier string, seed int64, results []WorkResult, w
 				extra[k] += v
 			}
 		}
-		if len(r.Sample) > 0 && len(samples) < 3 {
+		if len(r.Sample) > 0 && len(samples) < 4 {
 			samples = append(samples, r.Sample)
 		}
 		if len(r.Violations) > 0 {
